@@ -28,7 +28,7 @@ TEXT = {
          "executions with add / promote / remove requests (incl. the leader) under drops, delays, partitions and crashes, in a free family and in an S5-free family (no node ever two "
          "configurations behind). Known finding S5 is matched by its signature only.", "6 C09, 12.4"),
  "C16": ("The scenario driver establishes and maintains a healthy leader (prompt automatic network among a majority, free timers there) after a random prelude, while the adversary owns every "
-         "other node's links, timer, crashes and restarts; the monitor requires the leader to keep leading and no term of the majority to grow while the period lasts.", "6 C16"),
+         "other node's links, timer, crashes and restarts; the monitor requires the leader to keep leading and no term of the majority to grow while the period lasts; the adversary also delivers vote requests of minority nodes with higher terms to majority nodes.", "6 C16, 12.11"),
  "C10": ("Every snapshot published on any node (taken locally or installed) is compared by TLC with the operations applied up to its label (none later, none missing, in order) and with the configuration "
          "committed at the label; every restored state and every Apply is checked for double or skipped application. Scenarios: automatic and scheduler-triggered snapshots, gated Snapshot / Apply / "
          "Restore calls, crashes after publication, payloads from tens of bytes to several transfer chunks, lagging followers.", "6 C10"),
@@ -36,7 +36,9 @@ TEXT = {
          "backwards within an incarnation; no snapshot older than the applied index is restored; an installed snapshot equals, byte for byte (hash, size, label), a snapshot some node produced. "
          "Scenarios as C10 with stale, duplicated and reordered chunks.", "6 C11"),
  "C17": ("Time-driven adversary on an automatic network whose per-message delay the harness bounds below election timeout - lease duration, one virtual clock, free timers: partitions (both / one direction, "
-         "non-voters optionally left connected), leader changes, crashes, writes and lease reads at random instants; TLC evaluates the freshness clause on every successful lease read.", "6 C17"),
+         "non-voters optionally left connected), leader changes, crashes, writes and lease reads at random instants; TLC evaluates the freshness clause on every successful lease read and the refusal clause (a voter's reply less than a lease duration before the read). "
+         "Design: RaftTimed.tla (Raft.tla with a discrete clock: contact age, lease, message age bounded by D) checked with L + D < E; its counterexamples with one mechanism removed "
+         "(lease not checked, recent-contact guard weakened) are replayed on real nodes tick by tick.", "6 C17, 12.11"),
  "C12": ("LogStore.tla models the log file at system-call grain (two writes per record, fsync, ftruncate, temp file + rename) with a crash between any two calls and inside a write; "
          "TLC checks Recover/InMemoryIsReturned/FileDenotesLog exhaustively. On the code, operation programs run through the public Log API in a driver process that is killed by a real "
          "SIGKILL on entry to every storage system call (strace fault injection), plus byte prefixes of interrupted appends; every image is reopened, extended and reopened again and the "
@@ -45,7 +47,9 @@ TEXT = {
          "Recover exhaustively. On the code: SIGKILL at every storage system call of SetState / snapshot programs (0 B to multi-chunk payloads, many snapshots per directory), reopen through the "
          "constructors, judged by StoreMon.tla.", "6 C13, 12.6"),
  "C15": ("Every scenario of the core and crash families ends with the fault-free period (all members restarted, prompt reliable network, free timers); the monitor requires one leader, a fresh "
-         "operation completed and every running member caught up within the bound (reported only if also missed at four times the bound).", "6 C15"),
+         "operation completed and every running member caught up within the bound (reported only if also missed at four times the bound). Also from 10 044 TLC-enumerated post-fault cluster states (HealStates.tla). "
+         "Design: Heal.tla - invariant Recoverable (from every reachable state of the faulty model, for every majority of voters left running, some node's recovery strategy, "
+         "a pure expression over the spec's own step operators, ends converged: AG EF); its counterexamples under weakenings are replayed with the rest kept down.", "6 C15, 12.13"),
  "C18": ("Api.tla is the lifecycle automaton and call alphabet of the public API; TLC enumerates every call program up to the bound; each is executed on a real node steered into each role "
          "(follower, pre-candidate, candidate, leader, created, stopped) and interleaved with cluster activity; monitors: no panic, no abort, futures resolve by their time-out, none stays "
          "unresolved, a membership change that commits under its submitter succeeds.", "6 C18"),
